@@ -25,7 +25,7 @@ func init() {
 		{"aries", "", "NewRouter"}, {"aries", "Router", "Index"}, {"aries", "Router", "Default"},
 		{"aries", "Router", "MethodFile"}, {"aries", "Router", "File"}, {"aries", "Router", "Dir"},
 		{"aries", "Router", "DirService"}, {"aries", "Router", "add"}, {"aries", "Router", "notFound"},
-		{"aries", "Router", "Serve"},
+		{"aries", "Router", "Serve"}, {"aries", "Router", "serve"},
 		// aries/service_set.go
 		{"aries", "", "serveService"}, {"aries", "ServiceSet", "isAdmin"}, {"aries", "ServiceSet", "serveAuth"},
 		{"aries", "ServiceSet", "Serve"}, {"aries", "ServiceSet", "ServeInternal"},
